@@ -134,8 +134,64 @@ func runC07(w *World, r *Report) {
 					default:
 						okDefer = true
 					}
+				} else if hf := w.FuncOf(w.calleeOf(info, ds.Call)); hf != nil && hf.Decl.Body != nil && errObj != nil {
+					// a named helper: it must call recover() itself (recover only works in the deferred
+					// function's own frame) and assign a non-nil error through the parameter that receives &err
+					var errParam types.Object
+					pi := 0
+					for _, fl := range hf.Decl.Type.Params.List {
+						for _, nm := range fl.Names {
+							if pi < len(ds.Call.Args) {
+								if u, ok := unparen(ds.Call.Args[pi]).(*ast.UnaryExpr); ok && u.Op == token.AND {
+									if id, ok := unparen(u.X).(*ast.Ident); ok && info.Uses[id] == errObj {
+										errParam = hf.Pkg.TypesInfo.Defs[nm]
+									}
+								}
+							}
+							pi++
+						}
+					}
+					hinfo := hf.Pkg.TypesInfo
+					hasRecover, assignsErr := false, false
+					var walk func(n ast.Node)
+					walk = func(n ast.Node) {
+						ast.Inspect(n, func(m ast.Node) bool {
+							switch y := m.(type) {
+							case *ast.FuncLit:
+								return false // recover() inside a nested closure does not stop the panic
+							case *ast.CallExpr:
+								if id, ok := y.Fun.(*ast.Ident); ok && id.Name == "recover" {
+									if _, isB := hinfo.Uses[id].(*types.Builtin); isB {
+										hasRecover = true
+									}
+								}
+							case *ast.AssignStmt:
+								for i, l := range y.Lhs {
+									if st, ok := unparen(l).(*ast.StarExpr); ok && errParam != nil {
+										if id, ok := unparen(st.X).(*ast.Ident); ok && hinfo.Uses[id] == errParam && i < len(y.Rhs) {
+											if rid, ok := unparen(y.Rhs[i]).(*ast.Ident); !ok || rid.Name != "nil" {
+												assignsErr = true
+											}
+										}
+									}
+								}
+							}
+							return true
+						})
+					}
+					walk(hf.Decl.Body)
+					switch {
+					case errParam == nil:
+						why = "the deferred helper is not handed the address of the error result"
+					case !hasRecover:
+						why = "the deferred helper does not call recover() in its own frame"
+					case !assignsErr:
+						why = "the deferred helper recovers but does not assign a non-nil error through the pointer it is given: a decoding panic would be swallowed as (nil, nil)"
+					default:
+						okDefer = true
+					}
 				} else {
-					why = "the deferred call is not a function literal the rule can inspect"
+					why = "the deferred call is neither a function literal nor a module function the rule can inspect"
 				}
 			}
 		}
